@@ -433,7 +433,8 @@ fn inject(prop: &str, s: &mut Scenario, r: &mut Rng, pool: &[KeyInfo]) -> Option
                 evidence_files(&s.dir, &st.name).into_iter().find(|&fi| matches!(&s.dir.files[fi].1, SFile::Block(b) if matches!(b.meta, SMeta::Layout(_)))).map(|fi| (si, fi))
             })?;
             trim_spares(&l, &mut s.dir, si);
-            let fi = evidence_files(&s.dir, &l.steps[si].name).into_iter().find(|&f| matches!(&s.dir.files[f].1, SFile::Block(b) if matches!(b.meta, SMeta::Layout(_)))).unwrap_or(fi);
+            let cands: Vec<usize> = evidence_files(&s.dir, &l.steps[si].name).into_iter().filter(|&f| matches!(&s.dir.files[f].1, SFile::Block(b) if matches!(b.meta, SMeta::Layout(_)))).collect();
+            let fi = if cands.is_empty() { fi } else { cands[r.below(cands.len())] };
             let fname = s.dir.files[fi].0.clone();
             let subname = fname.trim_end_matches(".link").to_string();
             let short = subname[l.steps[si].name.len() + 1..].to_string();
@@ -525,7 +526,7 @@ pub fn run(cfg: &Cfg, prop: &str) {
             _ => r.below(2),
         };
         let allow_insp = matches!(prop, "C08") || r.chance(1, 4);
-        let mut g = Gen { r: &mut r, pool: &pool, insp_counter, force_delegate: prop == "C15", multi_party: prop == "C07" && i % 3 != 0 };
+        let mut g = Gen { r: &mut r, pool: &pool, insp_counter, force_delegate: prop == "C15", multi_party: prop == "C07" && i % 3 != 0, co_delegate: prop == "C15" && i % 3 == 0 };
         let mut s = g.valid(depth, allow_insp);
         insp_counter = g.insp_counter;
         if prop == "C08" {
